@@ -87,7 +87,8 @@ MT = "hypergraphx.communities.hypergraph_mt.model"
 @st.composite
 def hypergraph_cases(draw, tier):
     big = tier != "quick"
-    U = draw(universes(min_size=4, max_size=9 if big else 8))
+    U = draw(universes(min_size=4, max_size=9 if big else 8,
+                       kinds=("ints", "strs", "range", "floats")))
     labels = U["labels"]
     n = len(labels)
     # hyperedges live on the first m labels (in the drawn label order, which is neither the
@@ -103,7 +104,9 @@ def hypergraph_cases(draw, tier):
             seen.add(frozenset(e))
             edges.append(e)
     if draw(st.sampled_from([True, False])):
-        weights = draw(st.lists(st.integers(1, 9), min_size=len(edges), max_size=len(edges)))
+        # positive real weights: integers mostly, sometimes non-integers
+        pool = st.integers(1, 9) if draw(st.integers(0, 2)) else st.sampled_from([0.5, 1, 2.25, 7])
+        weights = draw(st.lists(pool, min_size=len(edges), max_size=len(edges)))
     else:
         weights = None
     covered = len({i for e in edges for i in e})
@@ -127,6 +130,8 @@ def mt_cases(draw, tier, normalizeU=None, min_value_par=None, n_real=(1, 3), asc
     c["min_value_par"] = (draw(st.sampled_from([0.0, 1e-5]))
                           if min_value_par is None else min_value_par)
     c["verbose"] = draw(st.integers(0, 5)) == 0
+    # the model object did another job before (fit on a small unrelated hypergraph)
+    c["reused"] = draw(st.sampled_from([False, False, True]))
     return c
 
 
@@ -214,6 +219,16 @@ def run_mt(case, h, global_seed=None):
     )
     # BLAS/OpenMP pools of 16 threads per worker process make a 10 ms fit take seconds
     with threadpoolctl.threadpool_limits(limits=1):
+        if case.get("reused"):
+            # ordinary API use: one HypergraphMT object fitted on one hypergraph after another.
+            # The earlier job is small and dense (high likelihood); nothing of it may survive.
+            from hypergraphx import Hypergraph
+            k = max(3, case["K"] + 1)
+            prior = Hypergraph([(i, (i + 1) % k) for i in range(k)] + [(0, 1, 2)])
+            model.fit(prior, K=case["K"], seed=case["seed"] + 1,
+                      normalizeU=case["normalizeU"], baseline_r0=False)
+            seed_globals(case["seed"] if global_seed is None else global_seed)
+            reset_guard_events()
         u, w, maxL = model.fit(h, K=case["K"], seed=case["seed"],
                                normalizeU=case["normalizeU"], baseline_r0=case["baseline_r0"])
     ev, log = guard_events()
@@ -236,6 +251,8 @@ def classify(case, ctx, nodes, edges, covered):
 def label_config(case, ctx):
     ctx.label("normalizeU=%s" % case["normalizeU"], "baseline_r0=%s" % case["baseline_r0"],
               "min_value_par=%g" % case["min_value_par"], "n_real=%d" % case["n_real"])
+    if case.get("reused"):
+        ctx.label("model_object_reused")
 
 
 def realisations(model, case):
